@@ -1,3 +1,3 @@
 SPECIFICATION Spec
-INVARIANTS OnlyAuthorized SignedBytesProtected SignatureProtected EmbeddedCertProtected AcceptExact NilIssuerUnchecked SerialMatch RoundTrip Emit
+INVARIANTS OnlyAuthorized SignedBytesProtected SignatureProtected EmbeddedCertProtected AcceptExact NilIssuerUnchecked SerialMatch RoundTrip IdentityIrrelevant ImpostorRejected Emit
 CHECK_DEADLOCK FALSE
